@@ -8,7 +8,8 @@ EXTENDS Integers, Sequences, FiniteSets, TLC
 Sites == {"literal", "shl", "shl-lhs", "shr", "div", "div-lhs", "mod", "mul", "add", "sub", "neg",
           "align", "loop", "setpc", "seg-start", "seg-pc", "bank-size", "bank-fill", "byte", "branch",
           "seg-name", "bank-name", "useseg-name", "test-name", "nested-call", "macro-recursion", "macro-mutual",
-          "shadow-segments", "interp-number", "text-number", "if-string"}
+          "shadow-segments", "interp-number", "text-number", "if-string",
+          "seg-redefine", "seg-redefine-moved", "bank-redefine"}       \* a definition repeated after code was emitted to it
 NumericSites == {"literal", "shl", "shl-lhs", "shr", "div", "div-lhs", "mod", "mul", "add", "sub", "neg",
                  "align", "loop", "setpc", "seg-start", "seg-pc", "bank-size", "bank-fill", "byte", "branch"}
 (* argument classes (rendered by the harness): zero, minus one, one, 63, 64, 65, 2^31, 2^63-1, -2^63 (as 0 - 2^63-1 - 1),
